@@ -62,6 +62,7 @@ class Engine:
         self.no_fork = 0
         self.assume_counts = {}
         self.merge_cache = {}
+        self.shadows = {}
         self.merge_applied = set()
         self.nmerge_bind = 0
         self.decided = {}
@@ -89,6 +90,7 @@ class Engine:
         self.iv = {}
         self.bind_log = []
         self.nmerge = 0
+        self.shadows = {}
         self.decided = {}
         self.bind_memo = {}
         self.pred_memo = {}
